@@ -79,6 +79,12 @@ func c10Restoring(t *rapid.T, w string, wType model.Type) [][]string {
 		{{"PEXPIREAT", w, "4102444800000"}, {"PERSIST", w}},
 		{{"RENAME", w, "tmpk"}, {"RENAME", "tmpk", "tmpk2"}, {"RENAME", "tmpk2", w}},
 	}
+	// the database flushed and built up again by exactly the commands that built it the first time
+	for _, fl := range []string{"FLUSHDB", "FLUSHALL"} {
+		seq := [][]string{{fl}}
+		seq = append(seq, setupTyped()...)
+		any = append(any, seq)
+	}
 	switch wType {
 	case model.TString:
 		any = append(any, [][]string{{"INCR", w}, {"DECR", w}}, [][]string{{"SETBIT", w, "7", "1"}, {"SETBIT", w, "7", "0"}})
